@@ -835,3 +835,17 @@ def registration_obligations(repo, chk, rule):
     lc = [n for n in walk_local(wf.node) if isinstance(n, ast.ListComp)]
     chk.ob(rule, "interpret.WorkingFrame.__init__:keeps-order", len(lc) == 1 and iter_text(lc[0].generators[0].iter) == "accumulators.get(varname, ())", wf.where,
            "the working frame keeps the registration order of the matching accumulators")
+
+
+def marker_free_definitions(ia, g, vname):
+    """CFG nodes of Interactor.interact that (re)define the value as something known not to be the marker: `value = X` reached only
+    under the condition `X is not ABSENT`.  Passing such a node is as good as passing the `value is ABSENT` test on its false edge."""
+    import ast
+    from ..core import norm
+    from ..astq import conds, is_name
+    out = []
+    for n in g.nodes:
+        if n.kind == "stmt" and isinstance(n.stmt, ast.Assign) and len(n.stmt.targets) == 1 and is_name(n.stmt.targets[0], vname):
+            if f"{norm(n.stmt.value)} is not ABSENT" in conds(n.stmt, ia.node):
+                out.append(n)
+    return out
